@@ -73,6 +73,23 @@ def packIntLE (w : Nat) (v : Int) : Except PackErr Bytes :=
 def packInt (w : Nat) (order : Order) (v : Int) : Except PackErr Bytes :=
   (packIntLE w v).map (orderBytes order)
 
+/-- `w`-byte unsigned range test (formats B H I L Q) -/
+def inURange (w : Nat) (v : Int) : Prop := 0 ≤ v ∧ v < 2 ^ (8 * w)
+
+instance (w : Nat) (v : Int) : Decidable (inURange w v) := by unfold inURange; infer_instance
+
+/-- little-endian image of an unsigned integer in a `w`-byte format -/
+def packUIntLE (w : Nat) (v : Int) : Except PackErr Bytes :=
+  if inURange w v then .ok (leBytes w v) else .error .range
+
+/-- `struct.pack(order + c, v)` for c ∈ B H I L Q -/
+def packUInt (w : Nat) (order : Order) (v : Int) : Except PackErr Bytes :=
+  (packUIntLE w v).map (orderBytes order)
+
+/-- `struct.unpack(order + c, bs)[0]` for c ∈ B H I L Q -/
+def unpackUInt (w : Nat) (order : Order) (bs : Bytes) : Option Int :=
+  if bs.length = w then some (leValue (orderBytes order bs)) else none
+
 /-- `struct.unpack(order + c, bs)[0]` for c ∈ b h i (none = `struct.error`: wrong length) -/
 def unpackInt (w : Nat) (order : Order) (bs : Bytes) : Option Int :=
   if bs.length = w then some (toSigned (8 * w) (leValue (orderBytes order bs))) else none
@@ -160,34 +177,56 @@ end chunks
 
 /-! ### the concrete element type of the driver: Python ints and floats -/
 
-inductive Fmt | b | h | i | f | d
+/-- the formats of the property (b h i f d) and the other integer formats of the struct table:
+    `s w` = signed, `u w` = unsigned, `w` bytes (B H I = u 1 2 4, q Q = s 8 / u 8, l L = 4 bytes with a
+    standard-size prefix `< > ! =`, the machine's `long` otherwise, and always in an array) -/
+inductive Fmt | b | h | i | f | d | s (w : Nat) | u (w : Nat)
   deriving DecidableEq, Repr
 
 def Fmt.width : Fmt → Nat
-  | .b => 1 | .h => 2 | .i => 4 | .f => 4 | .d => 8
+  | .b => 1 | .h => 2 | .i => 4 | .f => 4 | .d => 8 | .s w => w | .u w => w
 
+/-- integer formats: (signed, width) -/
+def Fmt.intSpec : Fmt → Option (Bool × Nat)
+  | .b => some (true, 1) | .h => some (true, 2) | .i => some (true, 4)
+  | .s w => some (true, w) | .u w => some (false, w)
+  | .f | .d => none
+
+/-- a Python number as it is SPELLED: int, float, bool, or a Fraction (carried with its `float()`) -/
 inductive PVal
   | int (v : Int)
   | flt (x : Float)
+  | bool (b : Bool)
+  | frac (x : Float)
 
 def PVal.toFloat : PVal → Float
   | .int v => Float.ofInt v
   | .flt x => x
+  | .bool b => if b then 1.0 else 0.0
+  | .frac x => x
+
+/-- `__index__`: ints and bools are integers; floats and Fractions are not -/
+def PVal.asInt : PVal → Option Int
+  | .int v => some v
+  | .bool b => some (if b then 1 else 0)
+  | .flt _ | .frac _ => none
 
 /-- little-endian image of one Python number in the given struct format.  The IEEE encoders
     (`Float.toBits`, `Float.toFloat32`) are NOT part of any theorem: the theorems take the
     element encoder as a parameter. -/
-def leElem (strictFloat : Bool) : Fmt → PVal → Except PackErr Bytes
-  | .b, .int v => packIntLE 1 v
-  | .h, .int v => packIntLE 2 v
-  | .i, .int v => packIntLE 4 v
-  | .b, .flt _ | .h, .flt _ | .i, .flt _ => .error .notInt
-  | .d, v => .ok (leBytes 8 (v.toFloat.toBits.toNat : Int))
-  | .f, v =>
-    let x := v.toFloat
-    let y := x.toFloat32
-    if strictFloat ∧ x.isFinite ∧ y.isInf then .error .floatRange
-    else .ok (leBytes 4 (y.toBits.toNat : Int))
+def leElem (strictFloat : Bool) (fmt : Fmt) (v : PVal) : Except PackErr Bytes :=
+  match fmt.intSpec with
+  | some (sg, w) =>
+    match v.asInt with
+    | none => .error .notInt
+    | some n => if sg then packIntLE w n else packUIntLE w n
+  | none =>
+    if fmt = .d then .ok (leBytes 8 (v.toFloat.toBits.toNat : Int))
+    else
+      let x := v.toFloat
+      let y := x.toFloat32
+      if strictFloat ∧ x.isFinite ∧ y.isInf then .error .floatRange
+      else .ok (leBytes 4 (y.toBits.toNat : Int))
 
 /-! ### WavStream -/
 
@@ -265,6 +304,9 @@ structure WavFile where
   sampwidth : Nat
   rate : Nat
   data : Bytes
+
+/-- `Wave_read._read_fmt_chunk`: `self._sampwidth = (wBitsPerSample + 7) // 8` -/
+def headerSampwidth (hdrBits : Nat) : Nat := (hdrBits + 7) / 8
 
 structure WavObs (K : Type) where
   rate : Nat
